@@ -33,6 +33,8 @@ def catalog(prog, tier):
         'backtrack': lambda: [OC.vc_build_matching_path(prog, d) for d in (False, True)],
         'match': lambda: [MF.vc_match(prog, ex, sp, w) for ex, sp, w in ((False, False, False), (True, False, False), (True, True, False), (False, False, True), (True, False, True))],
         'only_nodes': lambda: [OC.vc_only_nodes(prog, aj) for aj in (False, True)] + [OC.vc_only_nodes(prog, False, walk=True)],
+        'get_path': lambda: [OC.vc_get_path(prog, on, oc, sd) for on in (True, False) for oc in (True, False) for sd in ('none', 'empty', 'states')] +
+                            [OC.vc_path_pred_props(prog, w) for w in (False, True)],
         'widen': lambda: [MF.vc_increase_width(prog, ow) for ow in (False, True)],
         'ne_levels': lambda: [NL.vc_ne_levels(prog, w, ex) for w in (False, True) for ex in (False, True)],
         'visited': lambda: [NL.vc_node_in_prev_ne(prog, k) for k in ('edge', 'node')],
